@@ -440,3 +440,27 @@ func CheckFileReplaced(run *core.Run, prog *load.Program, c *CLI) {
 		run.Check("G-FILE/replaced", "no-other-file-api:"+s.Callee, s.Pos, allowed, fmt.Sprintf("package main uses %s: a file opened without truncation keeps the tail of a longer earlier output", s.Callee))
 	}
 }
+
+// CheckAlwaysGenerates: every successful run calls Mock (no "up to date" shortcut).
+func CheckAlwaysGenerates(run *core.Run, prog *load.Program, c *CLI) {
+	mocks := c.Run.SitesOf(fnMock)
+	if len(mocks) != 1 {
+		run.Check("G-CLI/always-generates", c.RunFn.Name(), prog.Pos(c.Run.Decl.Pos()), false, fmt.Sprintf("%d call sites of Mock in %s, want 1", len(mocks), c.RunFn.Name()))
+		return
+	}
+	r := c.Run.Explore(0, 0, cfgx.Cuts{Nodes: map[ast.Node]bool{mocks[0].Call: true}})
+	bad := 0
+	for _, ex := range r.Exits {
+		rs, isRet := ex.Node.(*ast.ReturnStmt)
+		if !isRet || len(rs.Results) != 1 {
+			bad++
+			continue
+		}
+		if id, ok := ast.Unparen(rs.Results[0]).(*ast.Ident); ok {
+			if _, isNil := c.Info.Uses[id].(*types.Nil); isNil {
+				bad++
+			}
+		}
+	}
+	run.Check("G-CLI/always-generates", c.RunFn.Name(), prog.Pos(mocks[0].Call.Pos()), bad == 0, fmt.Sprintf("%s can return success on %d path(s) that never call Mock (e.g. an \"output is up to date\" shortcut): what is at -out then depends on an earlier run, not on this command line", c.RunFn.Name(), bad))
+}
